@@ -220,6 +220,67 @@ void h_retry(void)
 }
 #endif
 
+/* ------------------------------------------------------------------ re-forwarding after a complete reply (C07) ---- */
+#ifdef T_REFWD
+#include "entry_flags_enum.inc"     /* REAL: ENTRY_FWD_HDR_WAIT, ENTRY_ABORTED ... (src/enums.h) */
+#include "statuscode_enum.inc"      /* REAL: scForbidden = 403, scBadGateway = 502 ... (src/http/StatusCode.h) */
+#define REFWD_PARAMS int entry_flags, int pending, int pinned, int n_tries, int max_tries, int have_body, unsigned long consumed,   \
+                     unsigned long available_paths, int subscribed, int status, int retry_onerror, int method
+static int rf_flag(int entry_flags, int bit) { return ((entry_flags & 0xFFFF) & (1 << bit)) != 0; }
+/* the reply statuses FwdState may answer by trying another path: 502/504 always, 403/500/501/503 with retry_on_error on */
+static int spec_reforwardable(int status, int retry_onerror)
+{
+    if (status == scBadGateway || status == scGatewayTimeout) return 1;
+    if (status == scForbidden || status == scInternalServerError || status == scNotImplemented || status == scServiceUnavailable) return retry_onerror != 0;
+    return 0;
+}
+static int spec_reforward_gate(REFWD_PARAMS)
+{
+    return !rf_flag(entry_flags, ENTRY_ABORTED) && !pinned && rf_flag(entry_flags, ENTRY_FWD_HDR_WAIT) && n_tries < max_tries &&
+           !(have_body && consumed > 0) && (available_paths != 0 || subscribed);
+}
+
+/* requires: complete() runs on a pending entry (the function's own assert; an aborted entry returns before it) */
+int mg_reforward(REFWD_PARAMS)
+__CPROVER_requires(pending || rf_flag(entry_flags, ENTRY_ABORTED))
+__CPROVER_assigns(mg_config_)
+__CPROVER_ensures(__CPROVER_return_value == 0 || __CPROVER_return_value == 1)
+#ifdef TWIN_REFWD
+__CPROVER_ensures(!(__CPROVER_return_value && spec_reforwardable(status, retry_onerror)) /* TWIN: never re-forwards a re-forwardable status */)
+#else
+/* only the statuses of Http::IsReforwardableStatus() are ever answered by another attempt */
+__CPROVER_ensures(__CPROVER_return_value ==> spec_reforwardable(status, retry_onerror))
+/* C07-relevant: a request body of which any byte was consumed is never sent again, whatever the status */
+__CPROVER_ensures((have_body && consumed > 0) ==> !__CPROVER_return_value)
+/* never once the reply was released towards the client (ENTRY_FWD_HDR_WAIT cleared), the entry aborted, the connection pinned,
+ * the tries used up, or no other path left */
+__CPROVER_ensures(__CPROVER_return_value ==> (!rf_flag(entry_flags, ENTRY_ABORTED) && rf_flag(entry_flags, ENTRY_FWD_HDR_WAIT) && !pinned &&
+                                             n_tries < max_tries && (available_paths != 0 || subscribed)))
+/* exact gate -- the METHOD is not part of it: with the conditions above, every method, POST and extension methods included, is re-forwarded */
+__CPROVER_ensures(__CPROVER_return_value ==
+                  (spec_reforward_gate(entry_flags, pending, pinned, n_tries, max_tries, have_body, consumed, available_paths, subscribed, status, retry_onerror, method) &&
+                   spec_reforwardable(status, retry_onerror)))
+#endif
+;
+
+void h_refwd(void)
+{
+    int entry_flags, pending, pinned, n_tries, max_tries, have_body, subscribed, status, retry_onerror, method;
+    unsigned long consumed, available_paths;
+    int r = mg_reforward(entry_flags, pending, pinned, n_tries, max_tries, have_body, consumed, available_paths, subscribed, status, retry_onerror, method);
+#ifdef REACH
+    __CPROVER_assert(!(r == 1 && status == scBadGateway), "reach: re-forwarded after 502");
+    __CPROVER_assert(!(r == 1 && status == scServiceUnavailable), "reach: re-forwarded after 503 with retry_on_error");
+    __CPROVER_assert(!(r == 0 && status == scServiceUnavailable && !retry_onerror && rf_flag(entry_flags, ENTRY_FWD_HDR_WAIT)), "reach: 503 without retry_on_error");
+    __CPROVER_assert(!(r == 0 && have_body && consumed > 0 && status == scBadGateway), "reach: nibbled body not re-forwarded");
+    __CPROVER_assert(!(r == 1 && method == METHOD_POST && !have_body), "reach: a body-less POST IS re-forwarded after the peer/origin answered 502 (designed behaviour; the method is not consulted)");
+    __CPROVER_assert(!(r == 1 && method == METHOD_OTHER && have_body && consumed == 0), "reach: an extension-method request whose body was never read IS re-forwarded");
+    __CPROVER_assert(!(r == 0 && status == scOkay), "reach: 200 not re-forwarded");
+    __CPROVER_assert(!(r == 0 && rf_flag(entry_flags, ENTRY_ABORTED) && !pending), "reach: aborted entry");
+#endif
+}
+#endif
+
 /* ------------------------------------------------------------------ purge gate (C20) ---- */
 static int full_purge(const char *uri)
 {
